@@ -40,11 +40,13 @@ def check(chk):
     _getparams(chk)
     _state(chk)
     _protocol(chk)
+    _alias(chk)
     _codec(chk)
     chk.floor("SERIAL.closure", 29)
     chk.floor("SERIAL.getparams", 9)
     chk.floor("SERIAL.state", 35)
     chk.floor("SERIAL.protocol", 8)
+    chk.floor("SERIAL.alias", 3)
 
 
 def _accepted(fl: InitFlow) -> tuple[set[str], set[str]]:
@@ -327,6 +329,38 @@ def _protocol(chk):
         chk.check(bool(ws), "SERIAL.protocol", fn, node,
                   why=f"deserialisation reads the marker {lit!r} which no serialiser of the '{g}' protocol writes",
                   facts={"marker": lit, "group": g, "written_by": sorted(ws)})
+
+
+def _alias(chk):
+    """a mutable object stored under several attributes/keys inside a loop must be created inside that loop"""
+    pm = chk.pm
+    n = 0
+    for fn in pm.all_functions():
+        if fn.name not in SERIAL_FUNCS or fn.parent is not None:
+            continue
+        ff = FuncFacts.of(fn)
+        for loop in [x for x in walk_no_nested(fn.node) if isinstance(x, ast.For)]:
+            inner = {id(x) for x in ast.walk(loop)}
+            for c in [x for x in ast.walk(loop) if isinstance(x, ast.Call)]:
+                val = None
+                if isinstance(c.func, ast.Name) and c.func.id == "setattr" and len(c.args) == 3:
+                    val = c.args[2]
+                if val is None or not isinstance(val, ast.Name):
+                    continue
+                n += 1
+                defs = ff.rd.reaching(val.id, ff.node_of(c))
+                outside = [d for d in defs if d.kind == "assign" and isinstance(d.value, (ast.Dict, ast.List, ast.Set)) and id(d.stmt) not in inner]
+                mutated = any(
+                    isinstance(x, ast.Assign) and any(isinstance(t, ast.Subscript) and isinstance(t.value, ast.Name) and t.value.id == val.id for t in x.targets)
+                    for x in ast.walk(loop)
+                ) or any(
+                    isinstance(x, ast.Call) and isinstance(x.func, ast.Attribute) and x.func.attr in ("append", "update", "extend", "setdefault")
+                    and isinstance(x.func.value, ast.Name) and x.func.value.id == val.id for x in ast.walk(loop)
+                )
+                chk.check(not (outside and mutated), "SERIAL.alias", fn, c,
+                          why=f"the container {val.id!r} is created once before the loop, filled inside it and stored under every key: the restored "
+                              "attributes alias one object (e.g. coords_from_fit and coords_from_transform), so a later transform changes fitted state")
+    chk.info["alias_sites"] = n
 
 
 def _codec_sites(tree: ast.AST, fn_name_filter=None):
